@@ -60,7 +60,7 @@ def bounds(tier, seed):
         "doc_periods": [1, 5, 8, 15] if not th else [1, 5, 7.5, 8, 15, 45, 60],  # 8 and 45 min do not divide an hour
         "zones": ["America/Los_Angeles", "Asia/Kolkata", "Australia/Lord_Howe"],
         "energies": [0.2, 3, 10, 40] if not th else [0.2, 1, 3, 7.7, 10, 40, 99],
-        "max_len": [None, 1, 12],
+        "max_len": [None, 0, 1, 12],  # 0: a cap of no period at all is a cap (the session ends where it begins)
         "max_power": [3.3, 6.656],
         "fit_energies": [0.1, 0.5, 1, 1.6, 3, 6, 7.9, 8, 8.1, 12, 20, 24, 30, 40, 55, 60] if not th else [round(0.1 * i, 1) for i in range(1, 80)] + list(range(8, 101, 1)),
         "fit_stays": [1, 2, 3, 6, 12, 13, 24, 36, 48, 72, 96, 144, 288] if not th else list(range(1, 289)),
@@ -287,6 +287,16 @@ def run_doc(item, only=None):
                 pend = sorted((ts, e.ev.session_id) for ts, e in q.queue)
                 if pend != sorted((ev.arrival, ev.session_id) for ev in evs) or any(e.event_type != "Plugin" for _, e in q.queue):
                     rep("doc:e2e:event-queue", "generate_events queue does not hold one plug-in per session at its arrival", pend[:6], None, ctx)
+                else:
+                    # the sessions the event-queue entry point builds are the same sessions (same options applied)
+                    by_id = {e.ev.session_id: e.ev for _, e in q.queue}
+                    n0 = len(viol)
+                    for (c, dd), dj in zip(sub, docs):
+                        d = {"connectionTime": c, "disconnectTime": dd, "kWhDelivered": dj["kWhDelivered"], "sessionID": dj["sessionID"], "spaceID": dj["spaceID"]}
+                        check_doc_ev(by_id[dj["sessionID"]], d, start, period, V, 6.656, max_len, bpk, ff, rep, dict(ctx, zone=zone, day=list(day), via="generate_events"), stats)
+                        stats["n"] += 1
+                    for k in range(n0, len(viol)):
+                        viol[k] = (viol[k][0] + ":via-generate_events",) + tuple(viol[k][1:])
     return viol, stats
 
 
@@ -351,13 +361,14 @@ def sample_rows(period, tier):
     arrs, durs = [], []
     for k in ([0, 1, 78, 99] if tier == "quick" else [0, 1, 2, 78, 99, 143, 287]):
         base = float(Fraction(k) / pph)
-        for o in (0.0, sec, -sec, float(Fraction(1) / pph) / 2):
+        # (the last offset: two ten-millionths of a period BEFORE the boundary - still the earlier period)
+        for o in (0.0, sec, -sec, float(Fraction(1) / pph) / 2, -float(Fraction(2, 10**7) / pph)):
             a = base + o
             if a >= 0:
                 arrs.append(a)
     for k in ([1, 2, 12, 13, 40] if tier == "quick" else [1, 2, 3, 11, 12, 13, 36, 40, 100]):
         base = float(Fraction(k) / pph)
-        for o in (0.0, sec, -sec):
+        for o in (0.0, sec, -sec, -float(Fraction(2, 10**7) / pph)):
             if base + o > 0:
                 durs.append(base + o)
     durs += [0.01, 0.9999, 1.0, 1.0001, 12.0, 12.5]
